@@ -58,6 +58,9 @@ type wenv struct {
 	loader  *wallet.Loader
 	w       *wallet.Wallet
 	running bool
+	// retry != 0: sync retry interval of the next loaded wallet (default 10 ms: a failed syncWithChain is retried
+	// in-process at once; an hour = "the process is stopped before any retry")
+	retry time.Duration
 }
 
 func newEnv() (*wenv, error) {
@@ -75,8 +78,12 @@ func (e *wenv) close() {
 }
 
 func (e *wenv) newLoader(recW uint32) *wallet.Loader {
+	retry := 10 * time.Millisecond
+	if e.retry != 0 {
+		retry = e.retry
+	}
 	return wallet.NewLoader(params, e.dir, true, 10*time.Second, recW,
-		wallet.WithWalletSyncRetryInterval(10*time.Millisecond))
+		wallet.WithWalletSyncRetryInterval(retry))
 }
 
 func (e *wenv) create(seed []byte, birthday time.Time, recW uint32) error {
@@ -102,20 +109,52 @@ func (e *wenv) reopen(recW uint32) error {
 // startSync connects the wallet to the fake backend and waits until the initial sync (incl. the rescan) has been
 // fully processed.  false = the wallet did not get through syncWithChain within the timeout.
 func (e *wenv) startSync(timeout time.Duration) bool {
+	if !e.beginSync() {
+		return false
+	}
+	for {
+		switch e.waitSync(timeout) {
+		case "done":
+			return true
+		case "stuck":
+			return false
+		}
+	}
+}
+
+// beginSync connects the wallet to the fake backend; waitSync reports the next event of the start-up sync:
+// "done" (initial sync incl. the final rescan fully processed), "hold" (the recovery loop is parked at the armed
+// height, see fakeChain.armHold), "failed" (the injected FilterBlocks failure fired) or "stuck" (timeout).
+func (e *wenv) beginSync() bool {
 	e.fc.resetConn()
+	e.fc.mu.Lock()
+	e.fc.failFired = make(chan struct{}, 1)
+	e.fc.mu.Unlock()
 	c := e.fc.conn()
 	e.w.Start()
 	e.w.SynchronizeRPC(e.fc)
 	e.running = true
-	if !c.send(chain.ClientConnected{}) {
-		return false
-	}
+	return c.send(chain.ClientConnected{})
+}
+
+func (e *wenv) waitSync(timeout time.Duration) string {
+	c := e.fc.conn()
+	e.fc.mu.Lock()
+	reached, fired := e.fc.holdReached, e.fc.failFired
+	e.fc.mu.Unlock()
 	select {
 	case <-c.rescanDone:
+		if c.send(sentinel{}) {
+			return "done"
+		}
+		return "stuck"
+	case <-reached:
+		return "hold"
+	case <-fired:
+		return "failed"
 	case <-time.After(timeout):
-		return false
+		return "stuck"
 	}
-	return c.send(sentinel{})
 }
 
 func (e *wenv) stop() {
